@@ -171,3 +171,299 @@ _targets_c11_core = targets
 
 def targets():      # noqa: F811
     return _targets_c11_core() + [target_offset_weights()]
+
+
+# ------------------------------------------------------------------------------------------------ the smoothing / interpolation stages
+_targets_c11_weights = targets
+
+
+def target_stage_dispatch():
+    """`_smooth_phase` and `_interpolate_phase`: each documented method name is handed to exactly the library routine it names, with
+    exactly the data and options it is given and nothing else -- in particular the interpolants are built from (ln omega, phase)
+    alone, with the library's own end conditions (an end condition such as `bc_type="clamped"` bends the phase where the spectrum
+    is cut off, and the integral of the phase is what becomes the modulus); 'none' returns the phase as it is; an unknown name is
+    refused with ZHITError.  `_generate_smoothing_options` / `_generate_interpolation_options`: 'auto' tries every documented
+    method, each (interpolation, smoothing) pair is built from THAT smoothing's phase, and the simulated phase is the interpolant
+    evaluated at the measured ln omega.  The real functions run on EUF terms with recording library stand-ins."""
+    from . import dataflow as DF
+    from .dataflow import T
+
+    def run(sess: Session):
+        SM, IN = "analysis/zhit/smoothing/__init__", "analysis/zhit/interpolation"
+        calls = []
+
+        def lib(name):
+            def f(*a, **k):
+                calls.append((name, a, k))
+                return T.var(f"{name}.result")
+            return f
+
+        class ZHITError(Exception):
+            pass
+        phase, lnw, N, P, IT = T.var("phase"), T.var("ln_omega"), T.var("num_points"), T.var("polynomial_order"), T.var("num_iterations")
+        ns = {"savgol_filter": lib("savgol_filter"), "lowess": lib("lowess"), "whithend": lib("whithend"), "modsinc": lib("modsinc"), "ZHITError": ZHITError,
+              "len": lambda x: DF.opaque("len")(x)}
+        O.load(SM, ["_smooth_phase"], ns)
+        sm = ns["_smooth_phase"]
+        flen = N / DF.opaque("len")(phase)
+        want = {
+            "savgol": ("savgol_filter", (phase,), {"window_length": N, "polyorder": P}),
+            "lowess": ("lowess", (phase, lnw), {"return_sorted": False, "frac": flen, "it": IT}),
+            "whithend": ("whithend", (phase,), {"degree": P, "m": N}),
+            "modsinc": ("modsinc", (phase,), {"degree": P, "m": N, "is_MS1": False}),
+        }
+
+        def same(a, b):
+            s = z3.Solver()
+            s.add(z3.Not(DF.tv(a) == DF.tv(b)))
+            return s.check() == z3.unsat
+        del calls[:]
+        out = sm("none", N, P, IT, lnw, phase)
+        sess.check("post", [], z3.BoolVal(out is phase and not calls), 0, label="_smooth_phase['none'] returns the phase as it is")
+        for name, (fn, a, k) in want.items():
+            del calls[:]
+            out = sm(name, N, P, IT, lnw, phase)
+            ok = len(calls) == 1 and calls[0][0] == fn and len(calls[0][1]) == len(a) and all(same(x, y) for x, y in zip(calls[0][1], a)) \
+                and sorted(calls[0][2]) == sorted(k) and all(same(calls[0][2][q], k[q]) for q in k)
+            ob = sess.check("post", [], z3.BoolVal(ok), 0, label=f"_smooth_phase[{name!r}] calls {fn} with exactly the data and options it is given")
+            if not ok:
+                ob.detail = f"calls: {[(c[0], len(c[1]), sorted(c[2])) for c in calls]}"
+            sess.check("post", [], z3.BoolVal(len(calls) == 1 and isinstance(out, T) and str(out.e) == f"{fn}.result"), 0, label=f"_smooth_phase[{name!r}] returns what {fn} returns")
+        try:
+            sm("spline", N, P, IT, lnw, phase)
+            refused = False
+        except ZHITError:
+            refused = True
+        sess.check("post", [], z3.BoolVal(refused), 0, label="_smooth_phase refuses an unknown method with ZHITError")
+
+        # interpolation
+        flip = DF.opaque("flip")
+        ns = {"Akima1DInterpolator": lib("Akima1DInterpolator"), "CubicSpline": lib("CubicSpline"), "PchipInterpolator": lib("PchipInterpolator"), "flip": flip, "ZHITError": ZHITError}
+        O.load(IN, ["_interpolate_phase"], ns)
+        ip = ns["_interpolate_phase"]
+        x, y = flip(lnw), flip(phase)
+        wanti = {"akima": ("Akima1DInterpolator", {"method": "akima"}), "makima": ("Akima1DInterpolator", {"method": "makima"}), "cubic": ("CubicSpline", {}), "pchip": ("PchipInterpolator", {})}
+        for name, (fn, k) in wanti.items():
+            del calls[:]
+            out = ip(name, lnw, phase)
+            ok = len(calls) == 1 and calls[0][0] == fn and len(calls[0][1]) == 2 and same(calls[0][1][0], x) and same(calls[0][1][1], y) and calls[0][2] == k
+            ob = sess.check("post", [], z3.BoolVal(ok), 0, label=f"_interpolate_phase[{name!r}] builds {fn} from (ln omega, phase), both reversed to ascending order, and no other option")
+            if not ok:
+                ob.detail = f"calls: {[(c[0], [str(DF.tv(v))[:40] for v in c[1]], c[2]) for c in calls]}"
+        try:
+            ip("linear", lnw, phase)
+            refused = False
+        except ZHITError:
+            refused = True
+        sess.check("post", [], z3.BoolVal(refused), 0, label="_interpolate_phase refuses an unknown method with ZHITError")
+
+        # the option generators
+        class Prog:
+            def __init__(self):
+                self.n = 0
+
+            def set_message(self, m):
+                pass
+
+            def increment(self):
+                self.n += 1
+        made = []
+
+        def smooth_stub(s, n, p, it, w, ph):
+            made.append((s, n, p, it, w, ph))
+            return T.var(f"smoothed[{s}]")
+        ns = {"_smooth_phase": smooth_stub}
+        O.load(SM, ["_generate_smoothing_options"], ns)
+        for choice, names in (("auto", ["none", "lowess", "modsinc", "savgol", "whithend"]), ("savgol", ["savgol"])):
+            del made[:]
+            prog = Prog()
+            out = ns["_generate_smoothing_options"](choice, N, P, IT, lnw, phase, prog)
+            ok = sorted(out) == sorted(names) and all(str(out[s].e) == f"smoothed[{s}]" for s in names) and \
+                all(m[1] is N and m[2] is P and m[3] is IT and m[4] is lnw and m[5] is phase for m in made) and sorted(m[0] for m in made) == sorted(names)
+            sess.check("post", [], z3.BoolVal(ok), 0, label=f"_generate_smoothing_options[{choice}]: one entry per method, each the smoothed MEASURED phase with the given options")
+        built = []
+
+        def interp_stub(i, w, ph):
+            built.append((i, w, ph))
+            return lambda v, i=i, ph=ph: ("interp", i, str(DF.tv(ph)), v)
+        ns = {"_interpolate_phase": interp_stub, "array": lambda v: ("array", v), "map": lambda f, xs: ("map", f, xs), "list": lambda m: m}
+        O.load(IN, ["_generate_interpolation_options"], ns)
+        smoothed = {"none": T.var("p_none"), "savgol": T.var("p_savgol")}
+        for choice, names in (("auto", ["akima", "makima", "cubic", "pchip"]), ("pchip", ["pchip"])):
+            del built[:]
+            prog = Prog()
+            opts, sim = ns["_generate_interpolation_options"](choice, lnw, dict(smoothed), prog)
+            ok = sorted(opts) == sorted(names) and sorted(sim) == sorted(names)
+            for i in names:
+                for s, ph in smoothed.items():
+                    got = opts.get(i, {}).get(s)
+                    ok = ok and callable(got) and got("v") == ("interp", i, str(DF.tv(ph)), "v")
+                    sv = sim.get(i, {}).get(s)
+                    ok = ok and isinstance(sv, tuple) and sv[0] == "array" and sv[1][0] == "map" and sv[1][1] is got and sv[1][2] is lnw
+            ok = ok and all(b[1] is lnw for b in built) and prog.n == len(names) * len(smoothed)
+            sess.check("post", [], z3.BoolVal(ok), 0, label=f"_generate_interpolation_options[{choice}]: every (interpolation, smoothing) pair is built from that smoothing's phase and evaluated at the measured ln omega")
+    return ("analysis/zhit/interpolation:smoothing and interpolation stages hand the data to the named routine unchanged", "analysis/zhit/interpolation", "_interpolate_phase", run)
+
+
+def targets():      # noqa: F811
+    return _targets_c11_weights() + [target_stage_dispatch()]
+
+
+# ------------------------------------------------------------------------------------------------ Whittaker-Henderson: the penalty matrix
+_targets_c11_stages = targets
+
+
+def target_whithend_matrix():
+    """`_make_D_prime_D_matrix(order, size)` for every order 1..5 and EVERY size >= order: band d of the result, position p, is
+    (D'D)[p][p+d] where D is the (size-order) x size matrix of the order-th finite difference (row k holds the binomial
+    coefficients with alternating sign at columns k..k+order) -- i.e. sum over k of D[k][p] D[k][p+d], including the truncated
+    sums near both ends and the mirrored second half the routine fills by symmetry; band d has size-d entries; orders outside
+    1..5 and sizes below the order are refused.  `_times_lambda_plus_identity(b, lambda)`: band 0 becomes 1 + lambda b, the other
+    bands lambda b, entry by entry.  Real functions run by CPython on a symbolic size (pyvc.hoare): the loop over positions is cut
+    at an invariant, the coefficient loop (at most order+1 trips) is executed."""
+    import math
+    from pyvc import hoare as H
+    WH = "analysis/zhit/smoothing/whittaker_henderson"
+
+    def run(sess: Session):
+        I = z3.IntSort()
+        space = H.NodeSpace([])
+        ns = H.base_namespace(space)
+        specs = H.LoopSpecs()
+        vc = H.VC(specs, space)
+        fn_ast = core.find_def(WH, "_make_D_prime_D_matrix")
+        real = H.build_function(fn_ast, ns, vc, bounded_whiles={("_make_D_prime_D_matrix", 1)})
+        st = {}
+        counts = {"paths": 0}
+
+        def coeff(order, t):
+            return (-1) ** (order - t) * math.comb(order, t) if 0 <= t <= order else 0
+
+        def defval(order, d, p, size):
+            """(D'D)[p][p+d] = sum_k D[k][p] D[k][p+d]; with t = p - k only t in 0..order can contribute"""
+            terms = []
+            for t in range(0, order + 1):
+                cc = coeff(order, t) * coeff(order, t + d)
+                if cc:
+                    k = p - t
+                    terms.append(z3.If(z3.And(k >= 0, k < size - order), z3.RealVal(cc), z3.RealVal(0)))
+            return z3.Sum(terms) if terms else z3.RealVal(0)
+
+        @specs.add("_make_D_prime_D_matrix", 3)
+        def _(env):
+            out, d, order, size, p = env.loc["out"], env.loc["d"], st["order"], st["size"], st["p"]
+            res = []
+            for dd, lst in enumerate(out):
+                if dd == d:
+                    length = size - d
+                    filled = z3.Or(p < env.i, p > length - 1 - env.i)
+                    res.append((f"band {d}: the positions filled so far (both ends inwards) hold (D'D)[p][p+{d}]",
+                                z3.Implies(z3.And(0 <= p, p < length, filled), z3.Select(lst.arr, p) == defval(order, d, p, size))))
+                    res.append((f"band {d} keeps its length", lst.len == length))
+                else:
+                    l0, a0 = env.entry[lst.name]
+                    res.append((f"band {dd} is not touched while band {d} is filled", z3.And(lst.len == l0, lst.arr == a0)))
+            return res
+        no_raise = None
+        from .diagrams import make_no_raise
+        no_raise = make_no_raise(WH)
+        for order in range(1, 6):
+            n0 = 0
+
+            def go(c, order=order):
+                counts["paths"] += 1
+                size, p = z3.Int("size"), z3.Int("p")
+                c.assume(size >= order)
+                st.update(order=order, size=size, p=p)
+                ok, out = no_raise("_make_D_prime_D_matrix", lambda: real(order, H.Rv(size)))
+                if not ok:
+                    return
+                c.canary(f"_make_D_prime_D_matrix[order={order}], at return")
+                shape = isinstance(out, list) and len(out) == order + 1 and all(isinstance(b, H.SymList) for b in out)
+                c.check(f"order {order}: the result has one band per distance 0..{order} from the diagonal", z3.BoolVal(shape), "post")
+                if not shape:
+                    return
+                for d, b in enumerate(out):
+                    c.check(f"order {order}: band {d} has size-{d} entries", b.len == size - d, "post")
+                    c.check(f"order {order}: band {d} holds (D'D)[p][p+{d}] at every position p, for every size",
+                            z3.Implies(z3.And(0 <= p, p < size - d), z3.Select(b.arr, p) == defval(order, d, p, size)), "post")
+            n0 = len(sess.obligations)
+            H.explore(sess, [], go)
+            # z3's counter-model (a size, and where the model has one a position) is replayed on the real function
+            for ob in sess.obligations[n0:]:
+                if ob.status == "refuted" and ob.model and not ob.replay:
+                    try:
+                        size_v = int(str(ob.model.get("size", "")).replace("?", ""))
+                    except ValueError:
+                        continue
+                    if not (order <= size_v <= 4000):
+                        continue
+                    ob.replay = {"repro": "import numpy as np\nfrom math import comb\nfrom pyimpspec.analysis.zhit.smoothing.whittaker_henderson import _make_D_prime_D_matrix\n"
+                                          f"order, size = {order}, {size_v}\n"
+                                          "D = np.zeros((size - order, size))\nfor k in range(size - order):\n    for t in range(order + 1):\n        D[k, k + t] = (-1) ** (order - t) * comb(order, t)\n"
+                                          "M = D.T @ D\nout = _make_D_prime_D_matrix(order, size)\nassert len(out) == order + 1, len(out)\n"
+                                          "for d, band in enumerate(out):\n    want = [M[p, p + d] for p in range(size - d)]\n    assert list(band) == want, (d, list(band), want)\n"}
+        # refusals (concrete arguments: the real function is simply called)
+        for order, size, why in ((0, 5, "order below 1"), (6, 9, "order above 5"), (3, 2, "size below the order")):
+            def go_r(c, order=order, size=size, why=why):
+                try:
+                    real(order, size)
+                    refused = False
+                except ValueError:
+                    refused = True
+                c.check(f"_make_D_prime_D_matrix refuses {why} with ValueError", z3.BoolVal(refused), "post")
+            H.explore(sess, [], go_r)
+
+        # _times_lambda_plus_identity
+        real_t = H.build_function(core.find_def(WH, "_times_lambda_plus_identity"), ns, vc)
+
+        def band_inv(which):
+            def inv(env):
+                b, lm, q = env.loc["b"], st["lmbd"], st["p"]
+                res = []
+                d_now = 0 if which == 1 else env.loc["d"]
+                for dd, lst in enumerate(b):
+                    l0, a0 = st["b0"][dd]
+                    res.append((f"band {dd} keeps its length", lst.len == l0))
+                    old = z3.Select(a0, q)
+                    new = (1 + old * lm) if dd == 0 else old * lm
+                    if dd == d_now:
+                        done = q < env.i
+                    else:
+                        done = z3.BoolVal(dd < d_now) if which == 2 else z3.BoolVal(False)
+                        if which == 2 and dd == 0:
+                            done = z3.BoolVal(True)
+                    res.append((f"band {dd}: entries visited so far are scaled, the others are as they were",
+                                z3.Implies(z3.And(0 <= q, q < l0), z3.Select(lst.arr, q) == z3.If(done, new, old))))
+                return res
+            return inv
+        specs.inv[("_times_lambda_plus_identity", 1)] = band_inv(1)
+        specs.inv[("_times_lambda_plus_identity", 3)] = band_inv(2)
+
+        def go_t(c):
+            counts["paths"] += 1
+            lm, q = z3.Real("lmbd"), z3.Int("p")
+            bands = []
+            for dd in range(3):
+                lst = H.SymList(f"band{dd}")
+                lst.havoc()
+                bands.append(lst)
+            st.update(lmbd=lm, p=q, b0=[(x.len, x.arr) for x in bands])
+            ok, out = no_raise("_times_lambda_plus_identity", lambda: real_t(bands, H.Rv(lm)))
+            if not ok:
+                return
+            c.canary("_times_lambda_plus_identity, at return")
+            c.check("_times_lambda_plus_identity returns the band matrix it was given", z3.BoolVal(out is bands), "post")
+            for dd, lst in enumerate(bands):
+                l0, a0 = st["b0"][dd]
+                old = z3.Select(a0, q)
+                c.check(f"_times_lambda_plus_identity: band {dd} becomes {'1 + lambda b' if dd == 0 else 'lambda b'}, entry by entry, same length",
+                        z3.And(lst.len == l0, z3.Implies(z3.And(0 <= q, q < l0), z3.Select(lst.arr, q) == ((1 + old * lm) if dd == 0 else old * lm))), "post")
+        H.explore(sess, [], go_t)
+        sess.check("cover", [], z3.BoolVal(counts["paths"] >= 20), 0, label=f"paths executed: {counts['paths']}")
+        sess.assumptions.append("floating-point rounding of the coefficient products is not modelled (they are small integers: exact in binary64)")
+    return (f"{WH}:_make_D_prime_D_matrix / _times_lambda_plus_identity", WH, "_make_D_prime_D_matrix", run)
+
+
+def targets():      # noqa: F811
+    return _targets_c11_stages() + [target_whithend_matrix()]
